@@ -238,6 +238,47 @@ def work(args):
     return json.loads(json.dumps(out, default=str))
 
 
+SHARED_DOC = {"openapi": "3.1.0", "info": {"title": "t", "version": "1"},
+              "paths": {"/things": {"parameters": [{"name": "order", "in": "query", "schema": {"type": ["string", "null"], "enum": ["asc", "desc", None]}}],
+                                    "get": {"operationId": "list_things", "responses": {"200": {"$ref": "#/components/responses/ThingReply"}}},
+                                    "post": {"operationId": "create_thing", "responses": {"200": {"$ref": "#/components/responses/ThingReply"}}},
+                                    "put": {"operationId": "replace_thing", "responses": {"200": {"$ref": "#/components/responses/ThingReply"}}}}},
+              "components": {"responses": {"ThingReply": {"description": "d", "content": {"application/json": {"schema": {
+                  "type": "object", "required": ["state"], "properties": {"state": {"type": ["string", "null"], "enum": ["on", "off", None]},
+                                                                           "mode": {"type": ["string", "null"], "enum": ["fast", "slow", None]}}}}}}}}}
+
+
+def shared_nullable(run):
+    """a schema OBJECT that the parser visits several times (a path-item parameter, an inline schema inside a shared component response):
+    the nullable enum must keep its three states for EVERY operation that uses it, not only the first"""
+    with impl.Gen(SHARED_DOC) as g:
+        if g.exc is not None:
+            run.violation("harness-or-generator", {"label": "shared", "error": repr(g.exc), "doc": SHARED_DOC})
+            return
+        ops = []
+        for name in ("list_things", "create_thing", "replace_thing"):
+            for order in (None, "asc", "@omit"):
+                kw = {} if order == "@omit" else {"order": order}
+                for body in ({"state": None}, {"state": "on", "mode": None}, {"state": "off", "mode": "fast"}, {"state": "on"}):
+                    ops.append({"op": "call", "module": f"api.default.{name}", "variant": "sync_detailed", "kwargs": kw, "response": {"status": 200, "json": body}})
+        res = impl.run_client(g.out, ops, timeout=300)
+    if isinstance(res, dict):
+        run.violation("harness-error", {"label": "shared", "error": res.get("fatal", "")[:800]})
+        return
+    for o, r in zip(ops, res):
+        case = {"doc": "shared", "op": o["module"], "kwargs": o["kwargs"], "body": o["response"]["json"]}
+        run.note_case(case, kind="shared_schema_object")
+        if "exc" in r:
+            run.violation("oracle", {"label": "shared", "doc": SHARED_DOC, **case, "impl": r["exc"], "note": "null / absent / present on a schema object shared by several operations: the call raised"})
+            continue
+        q = dict((k, v) for k, v in r["requests"][0]["query"])
+        want_q = {} if o["kwargs"].get("order") in (None,) or "order" not in o["kwargs"] else {"order": o["kwargs"]["order"]}
+        pj = (r["result"].get("parsed_json") or {})
+        if q != want_q or pj != o["response"]["json"]:
+            run.violation("oracle", {"label": "shared", "doc": SHARED_DOC, **case, "query_sent": q, "decoded": pj,
+                                     "note": "the three states of a nullable enum differ between operations sharing one schema object"})
+
+
 def admits_none_str(ts: str) -> bool:
     """does the annotation text admit None at top level"""
     t = ts.strip()
@@ -416,6 +457,7 @@ def run(run, tier, replay=None):
                     run.violation("oracle", {"label": r["label"], "doc": r["doc"], "cfg": r.get("cfg"), "op": erec["op"], "request": req, "note": "given optional parameter was not transmitted"})
                 if "rq" not in names:
                     run.violation("oracle", {"label": r["label"], "doc": r["doc"], "cfg": r.get("cfg"), "op": erec["op"], "request": req, "note": "required parameter was not transmitted"})
+    shared_nullable(run)
     bad = run_cases(hdr, terms, shard=300)
     run.corr = {"cases": len(terms), "mismatches": len([i for i in bad if meta[i][0] != "nullable"]), "what": "get_type_string == Types.type_of (as sets); document nullability == Types.nullable; generated from_dict/to_dict on absent/present/null instances == Codec.dec/enc"}
     for i in bad[:8]:
